@@ -386,6 +386,7 @@ package connect
 //@   requires c != nil && dst != nil && src != nil && dst != src && owned(dst) && owned(src)
 //@   assigns view(dst), view(src)
 //@   ensures res == nil ==> view(dst) == old(view(dst)) ++ compBy(c.compressors, old(view(src)))     // label: appends-compressed-source
+//@   ensures res != nil ==> !Is(res, io.EOF)   // label: a-failed-compression-never-reads-as-the-peer-having-closed-the-stream   // tags: C05, C04, C15
 //@   ensures res != nil ==> asErr(res) == res && res.code != 0
 
 //@ func (*compressionPool).getDecompressor(c, reader) (res, err)
@@ -459,6 +460,7 @@ package connect
 //@   assigns out(w.writer)
 //@   ensures res == nil ==> (let d := menc(w.codec, mval(message)) in (if w.compressionPool == nil || |d| < w.compressMinBytes then appendsFrame(out(w.writer), old(out(w.writer)), 0, d) else appendsFrame(out(w.writer), old(out(w.writer)), 1, compBy(w.compressionPool.compressors, d))))   // label: one-frame-holding-the-encoded-message
 //@   ensures res != nil ==> asErr(res) == res                                                                  // label: errors-are-coded
+//@   ensures !called("defer (*bufferPool).Put", 1)   // label: the-codec's-slice-never-goes-into-the-buffer-pool   // tags: C01, C05
 
 // errSpecialEnvelope = errorf(CodeUnknown, "...: %w", io.EOF) (package-level initialiser).
 //@ sentinel custom errSpecialEnvelope
@@ -982,12 +984,13 @@ package connect
 //@   ensures err != nil ==> res != nil
 //@   ensures err != nil && cdone(ctx) == context.Canceled ==> coded(res) && codeOf(res) == 1   // label: any-failure-under-a-canceled-context-is-canceled-whatever-code-the-transport's-error-has
 //@   ensures err != nil && cdone(ctx) == context.DeadlineExceeded ==> coded(res) && codeOf(res) == 4   // label: any-failure-under-an-expired-context-is-deadline-exceeded-whatever-code-the-transport's-error-has
-//@   ensures err != nil && cdone(ctx) != nil && !(coded(err) && res == err) ==> !Is(res, io.EOF)   // label: and-does-not-read-as-the-end-of-the-body
+//@   ensures err != nil && cdone(ctx) != nil ==> !Is(res, io.EOF)   // label: and-never-reads-as-the-end-of-the-body-whatever-the-transport's-error-is-or-wraps
 //@   ensures err != nil && cdone(ctx) == nil && coded(err) ==> res == err                                                               // label: coded-errors-pass-through-while-the-context-is-live
 //@   ensures err != nil && cdone(ctx) == nil && !coded(err) && Is(err, context.Canceled) ==> coded(res) && codeOf(res) == 1   // label: canceled-is-coded-canceled
 //@   ensures err != nil && cdone(ctx) == nil && !coded(err) && !Is(err, context.Canceled) && Is(err, context.DeadlineExceeded) ==> coded(res) && codeOf(res) == 4   // label: deadline-is-coded-deadline-exceeded
 //@   ensures err != nil && cdone(ctx) == nil && !coded(err) && !Is(err, context.Canceled) && !Is(err, context.DeadlineExceeded) ==> res == err   // label: other-errors-unchanged-while-the-context-is-live
 //@   ensures err != nil ==> cdone(ctx) == nil || cdone(ctx) == context.Canceled || cdone(ctx) == context.DeadlineExceeded
+//@   ensures old(cdone(ctx)) != nil ==> cdone(ctx) == old(cdone(ctx))   // label: a-done-context-stays-done
 //@ func wrapIfUncoded(err) res
 //@   tags C02, C15, C06
 //@   ensures err == nil ==> res == nil
@@ -1060,11 +1063,12 @@ package connect
 //@   ensures called("context.Context.Err", 1) && callres("context.Context.Err", 1) == context.DeadlineExceeded ==> n == 0 && coded(err) && codeOf(err) == 4   // label: expired-before-read
 //@   ensures old(d.err) != nil ==> n == 0 && err == old(d.err)                                      // label: error-is-sticky
 //@   ensures called("io.ReadCloser.Read", 1) ==> d.err == old(d.err)                                // label: a-body-read-records-no-error-the-protocol-layer-decides-how-the-call-ended   // tags: C03, C04
-//@   ensures called("io.ReadCloser.Read", 1) ==> n == callres("io.ReadCloser.Read", 1, 0) && (callres("io.ReadCloser.Read", 1, 1) == nil ==> err == nil) && (coded(callres("io.ReadCloser.Read", 1, 1)) && cdone(d.ctx) == nil ==> err == callres("io.ReadCloser.Read", 1, 1)) && (callres("io.ReadCloser.Read", 1, 1) == io.EOF ==> err == io.EOF)   // label: passes-the-body's-read-through
+//@   ensures called("io.ReadCloser.Read", 1) ==> n == callres("io.ReadCloser.Read", 1, 0) && (callres("io.ReadCloser.Read", 1, 1) == nil ==> err == nil) && (coded(callres("io.ReadCloser.Read", 1, 1)) && cdone(d.ctx) == nil ==> err == callres("io.ReadCloser.Read", 1, 1)) && (callres("io.ReadCloser.Read", 1, 1) == io.EOF && cdone(d.ctx) == nil ==> err == io.EOF)   // label: passes-the-body's-read-through
 //@   ensures called("io.ReadCloser.Read", 1) && Is(callres("io.ReadCloser.Read", 1, 1), context.Canceled) && !coded(callres("io.ReadCloser.Read", 1, 1)) && cdone(d.ctx) != context.DeadlineExceeded ==> coded(err) && codeOf(err) == 1   // label: cancellation-reported-by-the-body-is-canceled
 //@   ensures called("io.ReadCloser.Read", 1) && !Is(callres("io.ReadCloser.Read", 1, 1), context.Canceled) && Is(callres("io.ReadCloser.Read", 1, 1), context.DeadlineExceeded) && !coded(callres("io.ReadCloser.Read", 1, 1)) && cdone(d.ctx) != context.Canceled ==> coded(err) && codeOf(err) == 4   // label: expiry-reported-by-the-body-is-deadline-exceeded
+//@   ensures called("io.ReadCloser.Read", 1) && callres("io.ReadCloser.Read", 1, 1) != nil ==> called("wrapIfContextDone", 1) || called("context.Context.Err", 2)   // label: after-a-failed-body-read-the-call's-context-is-consulted-io.EOF-itself-included
 //@   ensures called("io.ReadCloser.Read", 1) && callres("io.ReadCloser.Read", 1, 1) != nil && !Is(callres("io.ReadCloser.Read", 1, 1), io.EOF) ==> called("wrapIfContextDone", 1)   // label: after-a-failed-body-read-the-call's-context-is-consulted
-//@   ensures (let e := callres("io.ReadCloser.Read", 1, 1) in called("io.ReadCloser.Read", 1) && e != nil && e != io.EOF) ==> (cdone(d.ctx) == context.Canceled ==> coded(err) && codeOf(err) == 1 && !Is(err, io.EOF)) && (cdone(d.ctx) == context.DeadlineExceeded ==> coded(err) && codeOf(err) == 4 && !Is(err, io.EOF))   // label: a-failed-body-read-under-a-done-context-is-canceled-or-deadline-exceeded-whatever-code-the-transport's-error-has-or-whatever-it-wraps
+//@   ensures (let e := callres("io.ReadCloser.Read", 1, 1) in called("io.ReadCloser.Read", 1) && e != nil) ==> (cdone(d.ctx) == context.Canceled ==> coded(err) && codeOf(err) == 1 && !Is(err, io.EOF)) && (cdone(d.ctx) == context.DeadlineExceeded ==> coded(err) && codeOf(err) == 4 && !Is(err, io.EOF))   // label: a-failed-body-read-under-a-done-context-is-canceled-or-deadline-exceeded-whatever-the-transport's-error-is-or-wraps-io.EOF-itself-included
 
 // ---------------------------------------------------------------------------
 // connect.go: unary responses
@@ -1288,7 +1292,8 @@ package connect
 //@   nosafety truncation
 //@   assigns nothing
 //@   ensures e == nil ==> res != nil && fresh(res)
-//@   ensures e == nil && coded(err) && codeOf(err) <= 2147483647 ==> res.Code == codeOf(err) && (validUTF8(errMessage(asErr(err))) ==> res.Message == errMessage(asErr(err)))   // label: status-carries-code-and-message
+//@   ensures e == nil ==> res.Code != 0   // label: an-error-never-goes-out-as-the-ok-status-whatever-code-it-carries   // tags: C05, C02
+//@   ensures e == nil && coded(err) && codeOf(err) <= 2147483647 ==> res.Code == (if codeOf(err) == 0 then 2 else codeOf(err)) && (validUTF8(errMessage(asErr(err))) ==> res.Message == errMessage(asErr(err)))   // label: status-carries-code-and-message
 //@   ensures e == nil && !coded(err) ==> res.Code == 2 && (validUTF8(errText(err)) ==> res.Message == errText(err))                     // label: plain-error-is-unknown-with-its-text
 //@   ensures e == nil ==> validUTF8(res.Message)   // label: the-message-on-the-wire-is-valid-utf-8-whatever-the-error-text-quotes   // tags: C07, C05
 //@   ensures e == nil && coded(err) ==> len(res.Details) == len(asErr(err).details) && (forall i int :: {seq(res.Details)[i]} 0 <= i && i < len(asErr(err).details) ==> seq(res.Details)[i] == (if typeis(asErr(err).details[i], "*anypb.Any") then asErr(err).details[i] else anyOf(asErr(err).details[i])))   // label: all-details-carried-in-order
@@ -2325,6 +2330,7 @@ package connect
 //@   tags C01, C05, C08
 //@   requires m != nil && m.writer != nil && !pooled(m.writer) && m.codec != nil && m.bufferPool != nil && m.header != nil
 //@   assigns out(m.writer), mapof(m.header), mapvals(m.header)
+//@   assert@call(defer (*bufferPool).Put): arg1 == callres("(*bufferPool).Get", 1)   // label: only-the-pool's-own-buffer-goes-back-never-the-codec's-slice   // tags: C01, C05
 //@   ensures res == nil ==> (let d := menc(m.codec, mval(message)) in (if |d| < m.compressMinBytes || m.compressionPool == nil then out(m.writer) == old(out(m.writer)) ++ d else out(m.writer) == old(out(m.writer)) ++ compBy(m.compressionPool.compressors, d)))   // label: body-is-the-encoded-message-compressed-iff-negotiated-and-large-enough
 //@   ensures res == nil && !(|menc(m.codec, mval(message))| < m.compressMinBytes || m.compressionPool == nil) ==> hvals(m.header, "Content-Encoding") == [m.compressionName]   // label: a-compressed-body-is-labelled   // tags: C01, C05, C08
 //@   ensures res == nil && (|menc(m.codec, mval(message))| < m.compressMinBytes || m.compressionPool == nil) ==> !hdom(m.header, "Content-Encoding")   // label: an-uncompressed-body-is-not-labelled-whatever-the-header-map-held   // tags: C01, C05, C08
@@ -2338,12 +2344,14 @@ package connect
 // ---------------------------------------------------------------------------
 
 //@ func (*connectUnaryClientConn).Send(cc, msg) err
-//@   tags C01, C02, C05, C07, C04
-//@   requires cc != nil && cc.duplexCall != nil && cc.duplexCall.requestBodyReader != nil && cc.marshaler.writer != nil && !pooled(cc.marshaler.writer) && cc.marshaler.codec != nil && cc.marshaler.bufferPool != nil && cc.marshaler.header != nil
-//@   assigns out(cc.marshaler.writer), mapof(cc.marshaler.header), mapvals(cc.marshaler.header), cc.duplexCall.err, pclosed(cc.duplexCall.requestBodyReader)
-//@   ensures err != nil && !Is(err, io.EOF) ==> called("(*duplexHTTPCall).SetError", 1)   // label: a-message-that-did-not-go-out-marks-the-call-failed-so-that-closing-the-request-cannot-deliver-an-empty-one   // tags: C05, C01, C07, C04
+//@   tags C01, C02, C05, C07, C04, C15
+//@   requires cc != nil && cc.duplexCall != nil && cc.duplexCall.ctx != nil && cc.duplexCall.requestBodyReader != nil && cc.marshaler.writer != nil && !pooled(cc.marshaler.writer) && cc.marshaler.codec != nil && cc.marshaler.bufferPool != nil && cc.marshaler.header != nil
+//@   assigns out(cc.marshaler.writer), mapof(cc.marshaler.header), mapvals(cc.marshaler.header), cc.duplexCall.err, pclosed(cc.duplexCall.requestBodyReader), cdone(cc.duplexCall.ctx)
+//@   ensures callres("(*connectUnaryMarshaler).Marshal", 1) != nil && !Is(callres("(*connectUnaryMarshaler).Marshal", 1), io.EOF) ==> called("(*duplexHTTPCall).SetError", 1)   // label: a-message-that-did-not-go-out-marks-the-call-failed-so-that-closing-the-request-cannot-deliver-an-empty-one   // tags: C05, C01, C07, C04
 //@   assert@call((*duplexHTTPCall).SetError#1): arg0 == cc.duplexCall && arg1 == callres("(*connectUnaryMarshaler).Marshal", 1)   // label: with-the-marshaler's-error
-//@   ensures (err == nil) == (callres("(*connectUnaryMarshaler).Marshal", 1) == nil) && (err != nil ==> err == callres("(*connectUnaryMarshaler).Marshal", 1))   // label: the-marshaler's-verdict-is-returned
+//@   ensures (err == nil) == (callres("(*connectUnaryMarshaler).Marshal", 1) == nil) && (let m := callres("(*connectUnaryMarshaler).Marshal", 1) in err != nil && cdone(cc.duplexCall.ctx) == nil && (coded(m) || (!Is(m, context.Canceled) && !Is(m, context.DeadlineExceeded))) ==> err == m)   // label: the-marshaler's-verdict-is-returned
+//@   ensures err != nil && cdone(cc.duplexCall.ctx) == context.Canceled ==> coded(err) && codeOf(err) == 1 && !Is(err, io.EOF)   // label: a-send-that-fails-once-the-context-is-canceled-is-canceled-whatever-the-codec-or-compressor-reports   // tags: C15
+//@   ensures err != nil && cdone(cc.duplexCall.ctx) == context.DeadlineExceeded ==> coded(err) && codeOf(err) == 4 && !Is(err, io.EOF)   // label: a-send-that-fails-once-the-context-has-expired-is-deadline-exceeded-whatever-the-codec-or-compressor-reports   // tags: C15
 //@   assert@call((*connectUnaryMarshaler).Marshal#1): arg1 == msg
 //@ func (*connectUnaryHandlerConn).Send(hc, msg) err
 //@   tags C01, C05, C11
@@ -2354,10 +2362,12 @@ package connect
 //@   ensures (err == nil) == (callres("(*connectUnaryMarshaler).Marshal", 1) == nil) && (err != nil ==> err == callres("(*connectUnaryMarshaler).Marshal", 1))   // label: the-marshaler's-verdict-is-returned
 //@   assert@call((*connectUnaryMarshaler).Marshal#1): arg1 == msg && called("(*connectUnaryHandlerConn).writeResponseHeader", 1)   // label: headers-and-trailers-are-written-before-the-body   // tags: C11, C05
 //@ func (*connectStreamingClientConn).Send(cc, msg) err
-//@   tags C01
-//@   requires cc != nil && envOK(cc.marshaler.envelopeWriter)
-//@   assigns out(cc.marshaler.envelopeWriter.writer)
-//@   ensures (err == nil) == (callres("(*envelopeWriter).Marshal", 1) == nil) && (err != nil ==> err == callres("(*envelopeWriter).Marshal", 1))   // label: the-marshaler's-verdict-is-returned
+//@   tags C01, C15
+//@   requires cc != nil && envOK(cc.marshaler.envelopeWriter) && cc.duplexCall != nil && cc.duplexCall.ctx != nil
+//@   assigns out(cc.marshaler.envelopeWriter.writer), cdone(cc.duplexCall.ctx)
+//@   ensures (err == nil) == (callres("(*envelopeWriter).Marshal", 1) == nil) && (let m := callres("(*envelopeWriter).Marshal", 1) in err != nil && cdone(cc.duplexCall.ctx) == nil && (coded(m) || (!Is(m, context.Canceled) && !Is(m, context.DeadlineExceeded))) ==> err == m)   // label: the-marshaler's-verdict-is-returned
+//@   ensures err != nil && cdone(cc.duplexCall.ctx) == context.Canceled ==> coded(err) && codeOf(err) == 1 && !Is(err, io.EOF)   // label: a-send-that-fails-once-the-context-is-canceled-is-canceled-whatever-the-codec-or-compressor-reports   // tags: C15
+//@   ensures err != nil && cdone(cc.duplexCall.ctx) == context.DeadlineExceeded ==> coded(err) && codeOf(err) == 4 && !Is(err, io.EOF)   // label: a-send-that-fails-once-the-context-has-expired-is-deadline-exceeded-whatever-the-codec-or-compressor-reports   // tags: C15
 //@   assert@call((*envelopeWriter).Marshal#1): arg1 == msg
 //@ func (*connectStreamingHandlerConn).Send(hc, msg) err
 //@   tags C01
@@ -2366,10 +2376,12 @@ package connect
 //@   ensures (err == nil) == (callres("(*envelopeWriter).Marshal", 1) == nil) && (err != nil ==> err == callres("(*envelopeWriter).Marshal", 1))   // label: the-marshaler's-verdict-is-returned
 //@   assert@call((*envelopeWriter).Marshal#1): arg1 == msg
 //@ func (*grpcClientConn).Send(cc, msg) err
-//@   tags C01
-//@   requires cc != nil && envOK(cc.marshaler.envelopeWriter)
-//@   assigns out(cc.marshaler.envelopeWriter.writer)
-//@   ensures (err == nil) == (callres("(*envelopeWriter).Marshal", 1) == nil) && (err != nil ==> err == callres("(*envelopeWriter).Marshal", 1))   // label: the-marshaler's-verdict-is-returned
+//@   tags C01, C15
+//@   requires cc != nil && envOK(cc.marshaler.envelopeWriter) && cc.duplexCall != nil && cc.duplexCall.ctx != nil
+//@   assigns out(cc.marshaler.envelopeWriter.writer), cdone(cc.duplexCall.ctx)
+//@   ensures (err == nil) == (callres("(*envelopeWriter).Marshal", 1) == nil) && (let m := callres("(*envelopeWriter).Marshal", 1) in err != nil && cdone(cc.duplexCall.ctx) == nil && (coded(m) || (!Is(m, context.Canceled) && !Is(m, context.DeadlineExceeded))) ==> err == m)   // label: the-marshaler's-verdict-is-returned
+//@   ensures err != nil && cdone(cc.duplexCall.ctx) == context.Canceled ==> coded(err) && codeOf(err) == 1 && !Is(err, io.EOF)   // label: a-send-that-fails-once-the-context-is-canceled-is-canceled-whatever-the-codec-or-compressor-reports   // tags: C15
+//@   ensures err != nil && cdone(cc.duplexCall.ctx) == context.DeadlineExceeded ==> coded(err) && codeOf(err) == 4 && !Is(err, io.EOF)   // label: a-send-that-fails-once-the-context-has-expired-is-deadline-exceeded-whatever-the-codec-or-compressor-reports   // tags: C15
 //@   assert@call((*envelopeWriter).Marshal#1): arg1 == msg
 
 
@@ -3014,7 +3026,8 @@ package connect
 //@ trusted func HTTPClient.Do(c, request) (res, err)
 //@   assigns nothing
 //@   ensures (err == nil) == (res != nil)
-//@   doc: "Do sends an HTTP request and returns an HTTP response; a non-nil response comes with a nil error and vice versa (net/http.Client.Do). Its effects are on the network, outside the modelled state."
+//@   ensures res != nil ==> res.Body != nil
+//@   doc: "Do sends an HTTP request and returns an HTTP response; a non-nil response comes with a nil error and vice versa, and its Body is never nil (net/http.Client.Do: 'On error, any Response can be ignored. A non-nil Response with a non-nil error only occurs when CheckRedirect fails'; Response.Body: 'The http Client and Transport guarantee that Body is always non-nil'). Its effects are on the network, outside the modelled state."
 //@ trusted func field:duplexHTTPCall.validateResponse(response) res
 //@   assigns everything
 //@   doc: "the protocol's validateResponse (both are under contract: never the zero code)"
@@ -3025,6 +3038,7 @@ package connect
 //@   ensures callres("HTTPClient.Do", 1, 1) != nil ==> d.err != nil && (old(d.err) == nil ==> coded(d.err) && classified(d.err))   // label: a-failed-round-trip-is-recorded-as-a-coded-error
 //@   ensures callres("HTTPClient.Do", 1, 1) != nil ==> called("wrapIfContextDone", 1)   // label: a-failed-round-trip-is-classified-by-the-call's-context-consulted-after-the-failure
 //@   assert@call(field:duplexHTTPCall.validateResponse#1): arg0 == callres("HTTPClient.Do", 1, 0) && d.response == arg0   // label: the-response-is-validated-before-anyone-reads-it
+//@   assert@call(field:duplexHTTPCall.validateResponse#1): arg0.StatusCode == 101 ==> typeis(arg0.Body, "http.noBody")   // label: the-raw-connection-a-101-response-hands-over-is-never-read-as-a-body
 
 // misc accessors
 //@ func (*Error).AddDetail(e, d)
